@@ -95,28 +95,19 @@ theorem header_string_spec (k : Str) (kind : SMKind) (pat : Str) (ic inv : Bool)
   rw [match_eq_withInvert md k inv (newSM kind pat ic).match]
   exact withInvert_iff md k inv _ _ (fun v => string_matcher_sem kind pat ic v hk)
 
-/-- present_match compares presence. FULL STATEMENT (false of the code, see the counterexample):
-      ∀ md k p inv, (newPresent k p inv).match md = Spec.present md k p inv
-    i.e. the matcher answers whether "the key is in the header map" equals the configured expectation (invert flips
-    it). Proved for every header map in which the header is absent or its joined value is non-empty. -/
-theorem present_match_partial (md : MD) (k : Str) (p inv : Bool) (h : valueFromMD md k ≠ some []) :
+/-- present_match compares presence: the matcher answers whether "the key is in the header map" equals the
+    configured expectation (invert flips it) — for EVERY header map, including a header present with an empty value
+    (the code treated that one as absent until fix 8ad6d37; the counterexample theorem that used to stand here is
+    gone with the defect). -/
+theorem present_match_spec (md : MD) (k : Str) (p inv : Bool) :
     (newPresent k p inv).match md = Spec.present md k p inv := by
   unfold newPresent HeaderMatcher.match Spec.present onValue
-  unfold valueFromMD at h ⊢
+  unfold valueFromMD
   cases hl : lookupMD md k with
   | none => cases p <;> cases inv <;> simp [hl]
-  | some vs =>
-    have : joinComma vs ≠ [] := by simpa [hl] using h
-    have hne : (joinComma vs).isEmpty = false := by simpa [List.isEmpty_iff] using this
-    cases p <;> cases inv <;> simp [hl, hne]
+  | some vs => cases p <;> cases inv <;> simp [hl]
 
-/-- The code (`present := ok && len(vs) > 0` on the JOINED value) reports a header that is present with an empty
-    value as absent: `x: ""` does not satisfy present_match. -/
-theorem present_match_counterexample :
-    ¬ ∀ (md : MD) (k : Str) (p inv : Bool), (newPresent k p inv).match md = Spec.present md k p inv := by
-  intro h
-  have := h [([120], [[]])] [120] true false
-  revert this; decide
+example : (newPresent [120] true false).match [([120], [[]])] = true := by decide
 
 /-! ### the vocabulary is what it says -/
 
